@@ -16,15 +16,15 @@ class Row:
 def row(op, kinds, ret, types=ALL_TYPES, mode="concrete", prop=None, inline_ops=()):
     def deco(f):
         for k in ([kinds] if isinstance(kinds, str) else kinds):
-            ROWS[(op, k)] = Row(op, k, ret, f, set(types), mode, prop, inline_ops)
+            ROWS.setdefault((op, k), []).append(Row(op, k, ret, f, set(types), mode, prop, inline_ops))
         return f
     return deco
 
 
 def lookup(fn):
-    r = ROWS.get((fn.op, fn.kinds))
-    if r and fn.tid in r.types:
-        return r
+    for r in ROWS.get((fn.op, fn.kinds), []):
+        if fn.tid in r.types:
+            return r
     return None
 
 
